@@ -92,8 +92,11 @@ def cases(seed, tier):
                     out.append({"mech": mech, "vclass": vclass, "dt": dt, "k": k,
                                 "scalar_params": bool(k % 3 == 0), "rename": bool(k % 7 == 3)})
     # trajectories under voltage clamp through the singular points
-    for j in range(4 if tier == "quick" else 24):
-        out.append({"mech": "TRAJ", "k": 10**6 + j, "dt": [0.025, 0.1, 1.0, 0.01][j % 4]})
+    combos = [("bwd_euler", "jaxley.stone"), ("crank_nicolson", "jaxley.stone"), ("fwd_euler", "jaxley.thomas"),
+              ("crank_nicolson", "jax.sparse"), ("bwd_euler", "jax.sparse"), ("bwd_euler", "jaxley.thomas")]
+    for j in range(6 if tier == "quick" else 36):
+        out.append({"mech": "TRAJ", "k": 10**6 + j, "dt": [0.025, 0.1, 1.0, 0.01, 0.5][j % 5], "solver": combos[j % 6][0],
+                    "backend": combos[j % 6][1]})
     return out
 
 
@@ -289,16 +292,35 @@ def _traj(case, rec):
     names = [k for c in comp.channels for k in c.channel_states]
     for s in names:
         comp.record(s, verbose=False)
+    solver = case.get("solver", "bwd_euler")
+    backend = case.get("backend", "jaxley.stone")
     try:
-        out = np.asarray(rec.call("gate_traj", jx.integrate, comp, delta_t=case["dt"], where="integrate under v-clamp"))
+        out = np.asarray(rec.call("gate_traj", jx.integrate, comp, delta_t=case["dt"], solver=solver, voltage_solver=backend,
+                                  where=f"integrate under v-clamp {solver}/{backend}"))
     except Refused:
         return
+    dt = case["dt"]
+    v_prev = np.concatenate([[float(comp.nodes["v"].iloc[0])], ramp[:-1]])  # voltage seen by the gate update of step k
     for row, s in zip(out, names):
         ok = np.all(np.isfinite(row)) and row.min() >= 0 and row.max() <= 1
         i = int(np.argmax(~np.isfinite(row))) if not np.all(np.isfinite(row)) else 0
-        rec.check("gate_traj", ok, state=s, dt=case["dt"], first_bad_step=i,
+        rec.check("gate_traj", ok, state=s, dt=dt, first_bad_step=i, solver=solver,
                   v_at_bad=float(ramp[max(i - 1, 0)]), mech=s.split("_")[0], clause="trajectory", dist_to_singular=0.0)
-    rec.sig(f"traj|dt{case['dt']}", nontrivial=True)
+        if not ok:
+            continue
+        # every step advances the gate by exactly dt along the closed-form solution at the voltage before the step,
+        # whatever scheme is used for the voltage equation
+        obj = next(c for c in comp.channels if s in c.channel_states)
+        params = {k: jnp.asarray(float(comp.nodes[k].iloc[0])) for k in obj.channel_params}
+        inf, tau = _own_rates(obj, s, jnp.asarray(v_prev), None, params)
+        with np.errstate(all="ignore"):
+            want = inf + (row[:-1] - inf) * np.exp(-dt / tau)
+        bad = ~(np.abs(row[1:] - want) <= 1e-10 + 1e-9 * np.abs(want))
+        j = int(np.argmax(bad)) if bad.any() else 0
+        rec.check("gate_traj", not bad.any(), state=s, dt=dt, solver=solver, backend=backend, step=j + 1, v_before_step=float(v_prev[j]),
+                  got=float(row[1:][j]), want=float(want[j]), mech=type(obj).__name__, clause="trajectory_closed_form",
+                  dist_to_singular=1e9)
+    rec.sig(f"traj|dt{case['dt']}|{solver}|{backend}", nontrivial=True)
 
 
 def classify(case, v):
